@@ -6,7 +6,7 @@
    all of it must equal what the map prescribes. *)
 EXTENDS Catalog, Names, Json, IOUtils
 Rec == ndJsonDeserialize(IOEnv.TRACE)
-NameOf(wire) == LowerName(ParseName(wire).name)
+NameOf(wire) == LET n == ParseName(wire) IN IF n.ok THEN LowerName(n.name) ELSE <<<<255, 255>>>>      \* total: a malformed name is no entry's name
 
 ObsOk(m, o) ==
   LET name == NameOf(o.p)
